@@ -75,35 +75,24 @@ Proof.
   - apply loop_mono in H. lia.
 Qed.
 
-(* a typed element that occupies no octet is a zero-width octet array with the empty value *)
-Lemma typed_zero_wf e v : elem_typed e v = true -> elem_len e v = 0 -> wf_value e v = true.
-Proof.
-  unfold elem_typed. intros T Z. apply andb_true_iff in T as [T1 T3].
-  unfold rfc_width_ok in T1. unfold elem_len in Z. unfold wf_value.
-  destruct (ie_dt e); destruct v as [o|n|n|n|n|z|z|z|z|n|n|b0|o|s|n|n|o]; try discriminate T3;
-    try (apply N.eqb_eq in T1; rewrite T1 in Z; discriminate Z).
-  - destruct (ie_len e <? var_len) eqn:L.
-    + rewrite Z in T3 |- *. cbn [N.eqb negb orb] in T3. apply Nat.eqb_eq in T3. rewrite T3. reflexivity.
-    + pose proof (var_prefixed_pos (length (obytes o))). lia.
-  - pose proof (var_prefixed_pos (length s)). lia.
-Qed.
-
-Lemma zero_len_wf els : els_typed els = true -> record_len els = 0 -> wf_record els = true.
-Proof.
-  induction els as [|[e v] r IH]; intros T Z; [reflexivity|].
-  cbn [els_typed forallb fst snd] in T. apply andb_true_iff in T as [T1 T2].
-  rewrite record_len_cons in Z. cbn [wf_record forallb fst snd].
-  rewrite (typed_zero_wf e v T1) by lia. cbn [andb]. apply IH; [exact T2|lia].
-Qed.
-
 (* (e): a record whose buffer was produced without an encode error carries only well-formed values *)
 Lemma get_buffer_wf els b :
   get_buffer els = Ok (b, 0%nat) -> els_typed els = true -> wf_record els = true.
 Proof.
-  unfold get_buffer. intros H T.
-  destruct (Nat.eqb_spec (N.to_nat (record_len els)) 0) as [Z|NZ].
-  - apply zero_len_wf; [exact T|lia].
-  - eapply loop_wf; eassumption.
+  unfold get_buffer. intros H T. eapply loop_wf; eassumption.
+Qed.
+
+(* the same for a record whose element values may have changed since it was built: the buffer
+   has the add-time length [len]; without an encode error (which since the record-length repair
+   includes "the fields do not fill the buffer") the current values are well-formed and occupy
+   exactly [len] octets *)
+Lemma get_buffer_n_wf len els b :
+  get_buffer_n len els = Ok (b, 0%nat) ->
+  els_typed els = true -> wf_record els = true /\ len = record_len els.
+Proof.
+  intros H T.
+  assert (E : len = record_len els) by (eapply get_buffer_n_noerr; eassumption).
+  split; [|exact E]. subst len. rewrite get_buffer_n_eq in H. eapply get_buffer_wf; eassumption.
 Qed.
 
 (* ---- properties of every record the builder produces ---- *)
@@ -250,11 +239,11 @@ Proof.
   - cbn. auto.
 Qed.
 
-Lemma setid_field st s t bytes :
-  Inv s -> st_wf st -> r_wire (send_set cur st s t) = Some bytes ->
+Lemma setid_field_m st s t bytes :
+  InvM s -> st_wf st -> r_wire (send_set cur st s t) = Some bytes ->
   hfield (firstn 20 bytes) 16 2 = hdr_id s.
 Proof.
-  intros HI W Hw. destruct (wire_is_frame st s t bytes HI W Hw) as (-> & _ & _).
+  intros HI W Hw. destruct (wire_is_frame_m st s t bytes HI W Hw) as (-> & _ & _).
   rewrite hfield_head by lia. unfold frame.
   pose proof (field_at (msg_hdr (x_obs st) (seq_next (x_seq st) s) t (20 + blen (body_of s)))
                 (hdr_id s) 2 (be 2 (4 + blen (body_of s)) ++ body_of s)) as H.
@@ -263,6 +252,11 @@ Proof.
   rewrite L16 in H. rewrite <- !app_assoc in *. rewrite H.
   apply N.mod_small. apply hdr_id_lt.
 Qed.
+
+Lemma setid_field st s t bytes :
+  Inv s -> st_wf st -> r_wire (send_set cur st s t) = Some bytes ->
+  hfield (firstn 20 bytes) 16 2 = hdr_id s.
+Proof. intros H. apply setid_field_m. now apply Inv_InvM. Qed.
 
 Lemma wf_record_octets els : wf_record els = true -> exists cs, octets_of els = Some cs.
 Proof.
@@ -280,7 +274,7 @@ Proof.
   unfold set_typed in Tp. rewrite forallb_forall in Tp. specialize (Tp r Hr).
   rewrite Ho in Tp. cbn [negb orb] in Tp. destruct (Hb r Hr) as [b Eb].
   split; [exact Ho|]. destruct r as [? ? ? ? ?|tid fc els len]; [discriminate|].
-  cbn [rec_els rec_buffer_e] in *. eapply get_buffer_wf; eassumption.
+  rewrite rec_buffer_e_data in Eb. cbn [rec_els] in *. eapply get_buffer_n_wf; eassumption.
 Qed.
 
 Lemma tpl_pairs_same s : C09drv.tpl_pairs s = C09_lemmas.tpl_pairs s.
@@ -364,9 +358,9 @@ Qed.
 
 (* The oracle holds on the model's observation of every case within the hypotheses. *)
 Theorem c09_oracle_on_model c :
-  c09_wf c (fst (hist_model cur c)) = true -> C09_holds_on c (hist_model cur c) = true.
+  c09_wf_h c (fst (hist_model cur c)) = true -> C09_holds_on_h c (hist_model cur c) = true.
 Proof.
-  unfold c09_wf, C09_holds_on, hist_model, hist_of. cbn [fst snd]. intros H.
+  unfold c09_wf_h, C09_holds_on_h, hist_model, hist_of. cbn [fst snd]. intros H.
   apply andb_true_iff in H as [H1 H2]. apply no_panic_obs in H2.
   apply c09_walk_model; try assumption.
   - unfold st_wf, init_exp. cbn [x_seq]. now rewrite u32_idem.
@@ -430,9 +424,9 @@ Qed.
 
 Theorem c02_oracle_on_model c :
   forallb (fun ds => case_set_ok (set_of (ops_of ds))) (hc_sends c) = true ->
-  C02_holds_on c (hist_model cur c) = true.
+  C02_holds_on_h c (hist_model cur c) = true.
 Proof.
-  intros H. unfold C02_holds_on, hist_model, hist_of. cbn [fst].
+  intros H. unfold C02_holds_on_h, hist_model, hist_of. cbn [fst].
   apply c02_walk_model; [|exact H].
   unfold st_wf, init_exp. cbn [x_seq]. now rewrite u32_idem.
 Qed.
